@@ -287,18 +287,29 @@ def main(run):
         pass
     # 6. build-and-agree in single precision for models declared single-safe (implementation-only run)
     agree = 0
-    if thorough:
-        from sasmodels.direct_model import call_kernel
-        for name in sas.compiled_model_names()[:20]:
-            info = load_model_info(name)
-            if not info.single:
-                continue
-            q = [np.array([0.01, 0.05, 0.1])]
-            k64 = sas.load(name, "double").make_kernel(q); k32 = sas.load(name, "single").make_kernel(q)
-            a = call_kernel(k64, {}); b = call_kernel(k32, {})
+    from sasmodels.direct_model import call_kernel
+    safe = [n for n in sas.compiled_model_names() if load_model_info(n).single]
+    for name in (safe[:20] if thorough else [n for n in ("sphere", "cylinder", "core_shell_sphere", "ellipsoid") if n in safe]):
+        info = load_model_info(name)
+        m64, m32 = sas.load(name, "double"), sas.load(name, "single")
+        oriented = any(p.type == "orientation" for p in info.parameters.call_parameters)
+        # defaults in 1-D; then with size dispersity; then (oriented models) 2-D with jitter; then 2-D with a magnetic SLD
+        settings = [("1d", {}), ("1d", {"radius_pd": 0.15, "radius_pd_n": 12} if "radius" in info.parameters else {})]
+        if oriented:
+            settings.append(("2d", {"theta": 35.0, "phi": 20.0, "theta_pd": 10.0, "theta_pd_n": 6}))
+        slds_ = [p.id for p in info.parameters.call_parameters if p.type == "sld"]
+        settings.append(("2d", {slds_[0] + "_M0": 2.0, slds_[0] + "_mtheta": 40.0, slds_[0] + "_mphi": 25.0, "up_frac_i": 0.3, "up_frac_f": 0.8, "up_theta": 60.0, "up_phi": 15.0}
+                         if info.parameters.nmagnetic > 0 and slds_ else {}))
+        for dim, pars in settings:
+            q = [np.array([0.01, 0.05, 0.1])] if dim == "1d" else [np.array([0.03, -0.05, 0.08]), np.array([0.04, 0.05, -0.02])]
+            k64 = m64.make_kernel(q); k32 = m32.make_kernel(q)
+            try:
+                a = np.asarray(call_kernel(k64, dict(pars), cutoff=1e-5)); b = np.asarray(call_kernel(k32, dict(pars), cutoff=1e-5))
+            finally:
+                k64.release(); k32.release()
             agree += 1
-            if not np.allclose(a, b, rtol=5e-3):
-                run.add(Finding("C15:single:%s" % name, "%s: float32 build %s vs float64 %s" % (name, b, a), dict(model=name)))
+            if not np.allclose(a, b, rtol=5e-3, atol=1e-7 * float(np.abs(a).max())):
+                run.add(Finding("C15:single:%s" % name, "%s (%s, %s): float32 build %s vs float64 %s" % (name, dim, sorted(pars), b, a), dict(model=name, dim=dim, pars=pars)))
     stats["single_builds_compared"] = agree
     run.sample(dict(kind="fragment", text=items[stats["sources"] * 3][1] if len(items) > stats["sources"] * 3 else "", note="random concatenation of tricky pieces"))
     run.sample(dict(kind="short", alphabet=ALPHABET, max_length=L))
